@@ -215,7 +215,7 @@ def p_c19(facts, rep, tier):
         "putting an entry back; no bulk removal. The page arithmetic (every page below the frontier in use or free, frontier not growing over fill/empty cycles, the count being right) is not decided."
     )
     n1, n2, n3, n4, n5 = reclaim.run(facts, rep)
-    rep.floor("U5 removals from FreeList.portions", n5, 2)
+    rep.floor("U5 removals from FreeList.portions", n5, 1)
     rep.floor("U1 occupancy obligations", n1, 8)
     rep.floor("U2 freed-page flow obligations", n2, 8)
     rep.floor("U3 obligations", n3, 2)
